@@ -1,0 +1,96 @@
+//go:build verif
+
+package linkedlist
+
+// Contracts for GoVC (see /verif/DESIGN.md). Comment-only: compiles to nothing.
+//
+// LinkedList is a monitor: mtx guards head, tail and the next/val fields of its elements. Ghost view: the
+// list is the window nodes[lo..hi) of a ghost sequence of element references (lo, hi only grow apart or
+// together; no shifting is ever needed): Push writes nodes[hi] and increments hi, PushFront decrements lo
+// and writes nodes[lo], Pop increments lo, Reset sets lo := hi. W0..W5 tie the window to the pointers.
+// Every method is one critical section, so the order of the critical sections is a linearization; the
+// postconditions (csold(e) = e at the entry of the method's critical section) say that each critical
+// section performs the corresponding sequential deque operation on the window (C12, second sentence).
+//
+//@ object LinkedList
+//@   props C12 C13 C18
+//@   lock mtx
+//@   guarded head, tail, linkedListElem.next, linkedListElem.val
+//@   ghost lo: int
+//@   ghost hi: int
+//@   ghost nodes: seq[ref]
+//@   inv W0: this.lo <= this.hi
+//@   inv W1: this.lo == this.hi ==> this.head == nil && this.tail == nil
+//@   inv W2: this.lo < this.hi ==> this.head == this.nodes[this.lo] && this.tail == this.nodes[this.hi - 1] && cast(this.nodes[this.hi - 1], linkedListElem).next == nil
+//@   inv W3: forall i: int {this.nodes[i]} :: this.lo <= i && i < this.hi - 1 ==> cast(this.nodes[i], linkedListElem).next == this.nodes[i + 1]
+//@   inv W4: forall i: int {this.nodes[i]} :: this.lo <= i && i < this.hi ==> this.nodes[i] != nil
+//@   inv W6: forall i: int {this.nodes[i]} :: this.lo <= i && i < this.hi ==> allocated(this.nodes[i])
+//@   inv W5: forall i: int, j: int {this.nodes[i], this.nodes[j]} :: this.lo <= i && i < j && j < this.hi ==> this.nodes[i] != this.nodes[j]
+//
+//@ closure (*LinkedList).pushElem
+//@   ghost exit: l.nodes := store(l.nodes, l.hi, l.tail)
+//@   ghost exit: l.hi := l.hi + 1
+//
+//@ func NewLinkedList
+//@   props C12
+//@   opt frame = skip
+//@   opt constructor = LinkedList
+//@   ensures result != nil && objinv(result) && result.hi - result.lo == len(elems)
+//@   ensures content: forall i: int :: 0 <= i && i < len(elems) ==> cast(result.nodes[result.lo + i], linkedListElem).val == elems[i]
+//@   loop 1 invariant built: objinv(ll) && ll.lo == 0 && ll.hi == rangeindex + 1
+//@   loop 1 invariant content: forall i: int :: 0 <= i && i <= rangeindex ==> cast(ll.nodes[i], linkedListElem).val == elems[i]
+//
+//@ func (*LinkedList).Push
+//@   props C12
+//@   inline
+//@   opt frame = skip
+//@   ensures appended: l.lo == csold(l.lo) && l.hi == csold(l.hi) + 1 && cast(l.nodes[l.hi - 1], linkedListElem).val == val
+//@   ensures kept: forall i: int :: l.lo <= i && i < l.hi - 1 ==> l.nodes[i] == csold(l.nodes[i]) && cast(l.nodes[i], linkedListElem).val == csold(cast(l.nodes[i], linkedListElem).val)
+//
+//@ func (*LinkedList).PushFront
+//@   props C12
+//@   inline
+//@   opt frame = skip
+//@   ghost unlock 1: l.lo := l.lo - 1
+//@   ghost unlock 1: l.nodes := store(l.nodes, l.lo, l.head)
+//@   ensures prepended: l.hi == csold(l.hi) && l.lo == csold(l.lo) - 1 && cast(l.nodes[l.lo], linkedListElem).val == val
+//@   ensures kept: forall i: int :: l.lo < i && i < l.hi ==> l.nodes[i] == csold(l.nodes[i]) && cast(l.nodes[i], linkedListElem).val == csold(cast(l.nodes[i], linkedListElem).val)
+//
+//@ func (*LinkedList).Pop
+//@   props C12
+//@   inline
+//@   opt frame = skip
+//@   ghost unlock 1: l.lo := ite(csold(l.head) != nil, l.lo + 1, l.lo)
+//@   ensures empty: csold(l.lo) == csold(l.hi) ==> !result1 && result0 == zero() && l.lo == csold(l.lo) && l.hi == csold(l.hi)
+//@   ensures head: csold(l.lo) < csold(l.hi) ==> result1 && result0 == csold(cast(l.nodes[l.lo], linkedListElem).val) && l.lo == csold(l.lo) + 1 && l.hi == csold(l.hi)
+//@   ensures kept: forall i: int :: l.lo <= i && i < l.hi ==> l.nodes[i] == csold(l.nodes[i]) && cast(l.nodes[i], linkedListElem).val == csold(cast(l.nodes[i], linkedListElem).val)
+//
+//@ func (*LinkedList).Peek
+//@   props C12
+//@   inline
+//@   opt frame = skip
+//@   ensures empty: csold(l.lo) == csold(l.hi) ==> !result1 && result0 == zero()
+//@   ensures head: csold(l.lo) < csold(l.hi) ==> result1 && result0 == csold(cast(l.nodes[l.lo], linkedListElem).val)
+//@   ensures same: l.lo == csold(l.lo) && l.hi == csold(l.hi) && !written(l.head) && !written(l.tail)
+//
+//@ func (*LinkedList).PeekTail
+//@   props C12
+//@   inline
+//@   opt frame = skip
+//@   ensures empty: csold(l.lo) == csold(l.hi) ==> !result1 && result0 == zero()
+//@   ensures tail: csold(l.lo) < csold(l.hi) ==> result1 && result0 == csold(cast(l.nodes[l.hi - 1], linkedListElem).val)
+//@   ensures same: l.lo == csold(l.lo) && l.hi == csold(l.hi) && !written(l.head) && !written(l.tail)
+//
+//@ func (*LinkedList).IsEmpty
+//@   props C12
+//@   inline
+//@   opt frame = skip
+//@   ensures result == (csold(l.lo) == csold(l.hi))
+//@   ensures same: l.lo == csold(l.lo) && l.hi == csold(l.hi) && !written(l.head) && !written(l.tail)
+//
+//@ func (*LinkedList).Reset
+//@   props C12
+//@   inline
+//@   opt frame = skip
+//@   ghost unlock 1: l.lo := l.hi
+//@   ensures l.lo == l.hi
